@@ -213,3 +213,59 @@ Example C01_tools_classifier_rejects_witness :
   /\ fg_dir_free ([HBuild false tw_r1 [s "//p:use"]] ++ [HBuild false tw_r2 [s "//p:use"]]) = true
   /\ quiet_history ([HBuild false tw_r1 [s "//p:use"]] ++ [HBuild false tw_r2 [s "//p:use"]]) empty_store = true.
 Proof. vm_compute. repeat split. Qed.
+
+(* ------------------------------------------------------------------------------------------ *)
+(* follow-up of the seeded changes C01/r2-m1..m3, C02/r2-m1: the statements below are about definitions that follow what gotrans
+   REGENERATES from the source (Gen/EngineRecord.v: read_record_loop, fg_same_file_acts, hasher_nil_mark, hasher_read_guard) *)
+From PlzV Require Model.C01Ext Proof.C01Ext.
+
+(* readRuleHashFromXattrs: a target is trusted only when EVERY one of its outputs carries the record - for every store and
+   every list of outputs.  (The Trust invariant of C01_partial reads the record through this.) *)
+Theorem C01_record_all_outputs : forall (st : store) (rels : list str) (rk : rkey),
+  common_rec st rels = Some rk <-> (rels <> [] /\ forall rel, In rel rels -> rec_at st rel = Some rk).
+Proof. exact C01Ext.record_read_exact. Qed.
+Print Assumptions C01_record_all_outputs.
+
+(* Non-vacuity: outputs shared ACROSS targets over time.  g (outs a.out, b.out) is built; the BUILD file is edited: g is gone and h
+   (outs b.out) is built; the BUILD file is reverted.  g's record still sits on a.out, h's on b.out: g is rebuilt and has the
+   outputs of a clean build. *)
+Definition to_g : target := mkT (s "//p:g") (s "p") (Genrule (Const (s "from-g"))) [SFile (s "x.txt")] [s "a.out"; s "b.out"] (s "kg").
+Definition to_h : target := mkT (s "//p:h") (s "p") (Genrule (Const (s "from-h"))) [SFile (s "x.txt")] [s "b.out"] (s "kh").
+Definition to_r1 : repo := mkR [(s "p/x.txt", s "x")] [to_g].
+Definition to_r2 : repo := mkR [(s "p/x.txt", s "x")] [to_h].
+Definition to_hist : list hstep := [HBuild false to_r1 [s "//p:g"]; HBuild false to_r2 [s "//p:h"]].
+Example C01_takeover_rebuilt :
+  rn_log (plz_build false to_r1 [s "//p:g"] (run_history to_hist empty_store)) = [s "//p:g"]
+  /\ outs_of (rn_st (plz_build false to_r1 [s "//p:g"] (run_history to_hist empty_store))) to_g
+     = outs_of (rn_st (plz_build false to_r1 [s "//p:g"] empty_store)) to_g
+  /\ rec_at (run_history to_hist empty_store) (s "p/a.out") <> rec_at (run_history to_hist empty_store) (s "p/b.out")
+  /\ rec_at (run_history to_hist empty_store) (s "p/b.out") <> None.
+Proof. vm_compute. repeat split; discriminate. Qed.
+
+(* the inode level (Model/C01Ext.v): a filegroup output that is a hard link to the user's file, a genrule behind it, the file
+   renamed (the inode keeps its xattr) and read directly by a second genrule.  For EVERY history of edits in place, replacements,
+   renames, rm -rf plz-out and builds in fresh processes, a command runs exactly when the content of the file it reads is not
+   the one of the previous build or plz-out was deleted since: no hash memoised on an inode is ever taken for the content. *)
+Theorem C01_inode_exact : forall (c0 : str) (evs : list C01Ext.event),
+  C01Ext.irun C01Ext.gen_flags (C01Ext.iinit c0) evs = C01Ext.ispec c0 None None None evs.
+Proof. exact C01Ext.ino_runs_exact. Qed.
+Print Assumptions C01_inode_exact.
+
+Example C01_inode_nonvacuous :
+  C01Ext.irun C01Ext.gen_flags (C01Ext.iinit (s "one"))
+    [C01Ext.Build; C01Ext.Build; C01Ext.EditA (s "two"); C01Ext.Build; C01Ext.EditA (s "three"); C01Ext.Build;
+     C01Ext.RenameAB (s "new"); C01Ext.Build; C01Ext.EditB (s "four"); C01Ext.Build; C01Ext.EditA (s "new"); C01Ext.Build]
+  = [(true, None); (false, None); (true, None); (true, None); (true, Some true); (false, Some true); (false, Some false)].
+Proof. vm_compute. reflexivity. Qed.
+
+(* each regenerated statement is needed: without CopyHash on the same-file way out, without the nil mark, without the plz-out
+   guard a command that must run is skipped (the histories of the seeded changes) *)
+Example C01_inode_flags_needed :
+  C01Ext.irun (C01Ext.mkF false true true true true) (C01Ext.iinit (s "one"))
+     [C01Ext.Build; C01Ext.EditA (s "two"); C01Ext.Build; C01Ext.EditA (s "three"); C01Ext.Build] = [(true, None); (true, None); (false, None)]
+  /\ C01Ext.irun (C01Ext.mkF true false false true true) (C01Ext.iinit (s "one"))
+     [C01Ext.Build; C01Ext.Build; C01Ext.EditA (s "two"); C01Ext.Build] = [(true, None); (false, None); (false, None)]
+  /\ C01Ext.irun (C01Ext.mkF true true true false true) (C01Ext.iinit (s "one"))
+     [C01Ext.Build; C01Ext.RenameAB (s "new"); C01Ext.Build; C01Ext.EditB (s "three"); C01Ext.Build]
+     = [(true, None); (true, Some true); (false, Some false)].
+Proof. vm_compute. repeat split. Qed.
